@@ -493,7 +493,7 @@ func desc(v ssa.Value, depth int) string {
 	case *ssa.Parameter:
 		return paramDesc(x, depth)
 	case *ssa.FreeVar:
-		return x.Name()
+		return freeVarName(x)
 	case *ssa.Const:
 		if x.Value == nil {
 			return "nil"
@@ -642,9 +642,57 @@ func shortQual(p *types.Package) string { return p.Name() }
 
 func allocName(a *ssa.Alloc) string {
 	if a.Comment != "" {
+		// a value receiver spilled into a local of the same name
+		if f := a.Parent(); f != nil && f.Signature.Recv() != nil && len(f.Params) > 0 && f.Params[0].Name() == a.Comment && types.Identical(deref(a.Type()), f.Params[0].Type()) {
+			return PN(f.Params[0])
+		}
 		return a.Comment
 	}
 	return a.Name()
+}
+
+// canonRecv: the name the rules use for the receiver of a method of the named type, whatever the source calls it (the
+// renderings the rules compare mention receivers - "log.core", "s.base", "enc.buf"; renaming a receiver must not change
+// them). Types not listed render under their own receiver name.
+var canonRecv = map[string]string{
+	"buffer.Buffer": "b", "buffer.Pool": "p", "pool.Pool": "p", "stacktrace.Formatter": "sf", "stacktrace.Stack": "st",
+	"zap.AtomicLevel": "lvl", "zap.Config": "cfg", "zap.Logger": "log", "zap.SugaredLogger": "s", "zap.anyFieldC": "f", "zap.dictObject": "d",
+	"zap.errArray": "errs", "zap.errArrayElem": "e", "zap.invalidPairs": "ps", "zap.loggerWriter": "l", "zap.sinkRegistry": "sr",
+	"zapcore.BufferedWriteSyncer": "s", "zapcore.CheckWriteAction": "a", "zapcore.CheckedEntry": "ce", "zapcore.EntryCaller": "ec",
+	"zapcore.Field": "f", "zapcore.Level": "l", "zapcore.MapObjectEncoder": "m", "zapcore.consoleEncoder": "c", "zapcore.counter": "c",
+	"zapcore.counters": "cs", "zapcore.errArray": "errs", "zapcore.errArrayElem": "e", "zapcore.hooked": "h", "zapcore.ioCore": "c",
+	"zapcore.jsonEncoder": "enc", "zapcore.lazyWithCore": "d", "zapcore.levelFilterCore": "c", "zapcore.lockedWriteSyncer": "s",
+	"zapcore.multiCore": "mc", "zapcore.multiWriteSyncer": "ws", "zapcore.sampler": "s", "zapcore.sliceArrayEncoder": "s",
+	"zapcore.writerWrapper": "w", "zapgrpc.Logger": "l", "zapgrpc.printer": "v", "zapio.Writer": "w", "zapslog.Handler": "h",
+}
+
+// PN: the name a parameter is rendered under: its own, or - for the receiver of a method of a listed type - the
+// canonical one.
+func PN(p *ssa.Parameter) string {
+	f := p.Parent()
+	if f == nil || f.Signature.Recv() == nil || len(f.Params) == 0 || f.Params[0] != p {
+		return p.Name()
+	}
+	if rn := RecvNamed(f); rn != nil && rn.Obj().Pkg() != nil {
+		if cn, ok := canonRecv[rn.Obj().Pkg().Name()+"."+rn.Obj().Name()]; ok {
+			return cn
+		}
+	}
+	return p.Name()
+}
+
+// freeVarName: a captured receiver renders like the receiver.
+func freeVarName(fv *ssa.FreeVar) string {
+	f := fv.Parent()
+	for f != nil && f.Parent() != nil {
+		f = f.Parent()
+	}
+	if f != nil && f.Signature.Recv() != nil && len(f.Params) > 0 && f.Params[0].Name() == fv.Name() {
+		if types.Identical(deref(fv.Type()), f.Params[0].Type()) || types.Identical(fv.Type(), f.Params[0].Type()) {
+			return PN(f.Params[0])
+		}
+	}
+	return fv.Name()
 }
 
 // singleStore returns the only value ever stored to the alloc (ignoring the
